@@ -54,6 +54,7 @@ struct Cfg {
   uint32_t minItems, g;
   int pool;
   bool nested;
+  bool fromWorker;          // issue the call from a plain task running on a pool worker thread
   bool useCts;
   bool stateful;
   bool reuseState;
@@ -90,7 +91,12 @@ static void invoke(TS& ts, const Cfg<T>& c, Rec& rec, std::vector<St8>& states) 
 template <typename T, typename TS>
 static void runOnSet(const Cfg<T>& c, Rec& rec, std::vector<St8>& states) {
   dispenso::ThreadPool& pool = poolOf(c.pool);
-  if (!c.nested) {
+  if (c.fromWorker && c.pool >= 1 && !c.nested) {
+    // the caller is then a pool thread with a ring index (static wait=true path picks its chunk by it)
+    std::atomic<int> done{0};
+    pool.schedule([&] { TS ts(pool); invoke<T>(ts, c, rec, states); ts.wait(); done.store(1, std::memory_order_release); }, dispenso::ForceQueuingTag());
+    while (!done.load(std::memory_order_acquire)) std::this_thread::sleep_for(std::chrono::microseconds(50));
+  } else if (!c.nested) {
     TS ts(pool);
     invoke<T>(ts, c, rec, states);
     ts.wait();
@@ -111,8 +117,8 @@ static void runCfg(const Cfg<T>& c, const char* tname, int bits, int sg) {
   rec.spinUs = (gProp == "C48" || gProp == "C14") ? 30 : 0;
   std::vector<St8> states;
   if (c.stateful && c.reuseState) states.resize(1 + (size_t)(c.maxThreads % 3));
-  std::snprintf(gLast, sizeof gLast, "type=%s start=%lld stop=%lld chunk=%d maxThreads=%u wait=%d minItems=%u g=%u pool=%d nested=%d cts=%d stateful=%d",
-                tname, (long long)c.start, (long long)c.stop, c.chunkMode, c.maxThreads, c.wait, c.minItems, c.g, c.pool, c.nested, c.useCts, c.stateful);
+  std::snprintf(gLast, sizeof gLast, "type=%s start=%lld stop=%lld chunk=%d maxThreads=%u wait=%d minItems=%u g=%u pool=%d nested=%d cts=%d stateful=%d worker=%d",
+                tname, (long long)c.start, (long long)c.stop, c.chunkMode, c.maxThreads, c.wait, c.minItems, c.g, c.pool, c.nested, c.useCts, c.stateful, c.fromWorker);
   alarm(25);
   if (c.useCts) runOnSet<T, dispenso::ConcurrentTaskSet>(c, rec, states); else runOnSet<T, dispenso::TaskSet>(c, rec, states);
   alarm(0);
@@ -194,6 +200,7 @@ static void sampleType(vh::SplitMix& rng, long long count, const char* tname, in
     c.g = rng.below(3) == 0 ? (uint32_t)rng.range(2, 16) : 1;
     c.pool = (int)rng.below(5);
     c.nested = rng.below(7) == 0;
+    c.fromWorker = rng.below(4) == 0;
     c.useCts = rng.below(3) == 0;
     c.stateful = (gProp == "C14") || rng.below(4) == 0;
     c.reuseState = rng.below(4) == 0;
@@ -220,7 +227,7 @@ static void exhaustive8(vh::SplitMix& rng, long long stride, const char* tname, 
       c.minItems = rng.below(3) == 0 ? (uint32_t)rng.range(2, 100) : 1;
       c.g = rng.below(3) == 0 ? (uint32_t)rng.range(2, 16) : 1;
       c.pool = (int)rng.below(5);
-      c.nested = false; c.useCts = rng.below(3) == 0; c.stateful = (gProp == "C14"); c.reuseState = false;
+      c.nested = false; c.fromWorker = rng.below(4) == 0; c.useCts = rng.below(3) == 0; c.stateful = (gProp == "C14"); c.reuseState = false;
       runCfg<T>(c, tname, 8, sg);
     }
 }
@@ -245,7 +252,7 @@ int main(int argc, char** argv) {
     // the known finding: adaptive, wait=true, 64-bit range ending at the type maximum
     Cfg<int64_t> c;
     c.start = std::numeric_limits<int64_t>::max() - 1000; c.stop = std::numeric_limits<int64_t>::max();
-    c.chunkMode = 0; c.maxThreads = 0x7fffffffu; c.wait = true; c.minItems = 1; c.g = 1; c.pool = 3; c.nested = false; c.useCts = false; c.stateful = false; c.reuseState = false;
+    c.chunkMode = 0; c.maxThreads = 0x7fffffffu; c.wait = true; c.minItems = 1; c.g = 1; c.pool = 3; c.nested = false; c.fromWorker = false; c.useCts = false; c.stateful = false; c.reuseState = false;
     signal(SIGALRM, [](int) { const char m[] = "PFAIL parallel_for adaptive 64-bit range ending at the type maximum does not terminate or mis-partitions | probe64\n"; if (write(1, m, sizeof m - 1)) {} _exit(0); });
     alarm(5);
     gProp = "C12x";
